@@ -45,6 +45,36 @@ def _flow(ctx):
     return ctx._c02flow
 
 
+def _production_guards(prog, lx, a):
+    """Guard sets under which the token aggregate `a` (built in lx) is produced. Built and returned in lx itself: its own guard set. Handed to a
+    helper as an argument: lx's guard set at the construction joined with the helper's guard set at each place the parameter is put into the
+    result, the helper's other parameters replaced by the actual arguments of the call."""
+    own = guards.guard_set(prog, lx, a['bb'])
+    tok = vexpr(lx, {'cp': a['lhs']})
+    out = []
+    for c in lx.calls():
+        if lx.blocks[c.bb].get('cleanup') or not c.args:
+            continue
+        g = prog.fns.get(c.resolved or '')
+        if g is None or g is lx or not g.path.startswith(SL):
+            continue
+        for k, o in enumerate(c.args):
+            pl = op_place(o)
+            if pl is None or pl['l'] != a['lhs']['l'] or not lx.dominates(a['bb'], c.bb):
+                continue
+            actual = {'arg%d' % (i + 1): vexpr(lx, x) for i, x in enumerate(c.args)}
+            for bb, j, st in g.stmts():
+                rv = st.get('rv') or {}
+                if rv.get('k') == 'agg' and rv.get('ak') == 'tuple' and any(vexpr(g, x) == 'arg%d' % (k + 1) for x in rv['ops']) and not g.blocks[bb].get('cleanup'):
+                    gs = []
+                    for cond in guards.guard_set(prog, g, bb):
+                        cond = re.sub(r'\barg([2-9])\b', lambda m: actual.get('arg' + m.group(1), m.group(0)), cond)
+                        m = re.match(r'^Eq\((\d+),(.*)\)$', cond)
+                        gs.append('%s == %s' % (m.group(2), m.group(1)) if m else cond)
+                    out.append(sorted(set(own) | set(gs)))
+    return out or [own]
+
+
 # ----------------------------------------------------------------------------------------------------------- (1) token alphabet
 def r_token_tables(r, prog, flow):
     g = flow.gen
@@ -81,7 +111,7 @@ def r_token_tables(r, prog, flow):
     seen = {}
     for a in aggregates(prog, TK, crates=('slicec',)):
         if a['fn'] is lx and not lx.blocks[a['bb']].get('cleanup') and a['rv']['v'] not in PAYLOAD:
-            seen.setdefault(a['rv']['v'], []).append(guards.guard_set(prog, lx, a['bb']))
+            seen.setdefault(a['rv']['v'], []).extend(_production_guards(prog, lx, a))
     puncts = [v for v in variants if v not in kws and v not in PAYLOAD]
     for v in puncts:
         gss = seen.get(v, [])
